@@ -246,7 +246,13 @@ class Ref:
                 pass        # the DSL refused it: no effect
             elif k == "print":
                 if st[1] == dom and dom != "comb":
-                    self.prints.append((mi, dom, self.format(st[2]) + "\n"))     # Print(...) ends with a newline, like print()
+                    if len(st) > 3:
+                        # like Python's print(*args, sep=, end=): a bare value prints as "{}" does
+                        parts = [self.format(a[1]) if a[0] == "fmt" else (a[1] if a[0] == "str" else self.format([[a[1], ""]]))
+                                 for a in st[3]["args"]]
+                        self.prints.append((mi, dom, st[3]["sep"].join(parts) + st[3]["end"]))
+                    else:
+                        self.prints.append((mi, dom, self.format(st[2]) + "\n"))     # Print(...) ends with a newline, like print()
             elif k == "assert":
                 if st[1] == dom and dom != "comb":
                     if self.ev(st[2]) == 0:
@@ -260,7 +266,9 @@ class Ref:
             if isinstance(ch, str):
                 out.append(ch)
             else:
-                expr, spec = ch
+                expr, spec = ch[0], ch[1]
+                if len(ch) > 2:
+                    spec = spec.format(*ch[2])       # nested replacement fields
                 v = self.ev(expr)
                 if spec.endswith("s"):
                     # a byte string, least significant byte first; the generator keeps bytes ASCII and non-NUL except for
